@@ -56,9 +56,15 @@ def _t6809():
     t.byte, t.word, t.res = "fcb", "fdb", "rmb"
     t.forms = {"lda": [([0x96], "z8"), ([0xB6], "a16")], "ldx": [([0x9E], "z8"), ([0xBE], "a16")],
                "jmp": [([0x0E], "z8"), ([0x7E], "a16")], "jsr": [([0x9D], "z8"), ([0xBD], "a16")],
-               "bra": [([0x20], "r8")], "bne": [([0x26], "r8")], "lbra": [([0x16], "r16")], "lbsr": [([0x17], "r16")]}
+               "bra": [([0x20], "r8")], "bne": [([0x26], "r8")], "lbra": [([0x16], "r16")], "lbsr": [([0x17], "r16")],
+               # program-counter relative indexed operands, 8 or 16 bit offset chosen by the assembler
+               "lda.pcr": [([0xA6, 0x8C], "r8"), ([0xA6, 0x8D], "r16")], "leax.pcr": [([0x30, 0x8C], "r8"), ([0x30, 0x8D], "r16")],
+               "jmp.pcr": [([0x6E, 0x8C], "r8"), ([0x6E, 0x8D], "r16")]}
     t.short = {"bra", "bne"}
-    t.maxlen = {"lda": 3, "ldx": 3, "jmp": 3, "jsr": 3, "bra": 2, "bne": 2, "lbra": 3, "lbsr": 3}
+    t.near16 = {"lbra", "lbsr", "lda.pcr", "leax.pcr", "jmp.pcr"}
+    t.alias = {"lda.pcr": "lda", "leax.pcr": "leax", "jmp.pcr": "jmp"}
+    t.suffix = {"lda.pcr": ",pcr", "leax.pcr": ",pcr", "jmp.pcr": ",pcr"}
+    t.maxlen = {"lda": 3, "ldx": 3, "jmp": 3, "jsr": 3, "bra": 2, "bne": 2, "lbra": 3, "lbsr": 3, "lda.pcr": 4, "leax.pcr": 4, "jmp.pcr": 4}
     return t
 
 
@@ -79,10 +85,20 @@ def _t68k():
     t.byte, t.word, t.res = "dc.b", "dc.w", "ds.b"
     t.forms = {"bra": [([0x60], "b68")], "bsr": [([0x61], "b68")], "bne": [([0x66], "b68")], "beq": [([0x67], "b68")],
                "jmp": [([0x4E, 0xF8], "w16"), ([0x4E, 0xF9], "l32")], "jsr": [([0x4E, 0xB8], "w16"), ([0x4E, 0xB9], "l32")],
-               "lea": [([0x41, 0xF8], "w16"), ([0x41, 0xF9], "l32")], "move.w": [([0x30, 0x38], "w16"), ([0x30, 0x39], "l32")]}
+               "lea": [([0x41, 0xF8], "w16"), ([0x41, 0xF9], "l32")], "move.w": [([0x30, 0x38], "w16"), ([0x30, 0x39], "l32")],
+               # d16(PC) operands: the displacement counts from the extension word, wherever in the instruction it sits
+               "lea.pc": [([0x41, 0xFA], "pcw")], "jmp.pc": [([0x4E, 0xFA], "pcw")], "jsr.pc": [([0x4E, 0xBA], "pcw")],
+               "pea.pc": [([0x48, 0x7A], "pcw")], "move.pc": [([0x30, 0x3A], "pcw")], "btsti.pc": [([0x08, 0x3A, 0x00, 0x03], "pcw")],
+               "btstd.pc": [([0x03, 0x3A], "pcw")], "cmp.pc": [([0xB0, 0x7A], "pcw")], "movem.pc": [([0x4C, 0xBA, 0x00, 0x03], "pcw")]}
     t.short = set()
-    t.maxlen = {"bra": 4, "bsr": 4, "bne": 4, "beq": 4, "jmp": 6, "jsr": 6, "lea": 6, "move.w": 6}
-    t.suffix = {"lea": ",a0", "move.w": ",d0"}
+    t.near16 = {"lea.pc", "jmp.pc", "jsr.pc", "pea.pc", "move.pc", "btsti.pc", "btstd.pc", "cmp.pc", "movem.pc"}
+    t.alias = {"lea.pc": "lea", "jmp.pc": "jmp", "jsr.pc": "jsr", "pea.pc": "pea", "move.pc": "move.w", "btsti.pc": "btst", "btstd.pc": "btst",
+               "cmp.pc": "cmp.w", "movem.pc": "movem.w"}
+    t.prefix = {"btsti.pc": "#3,", "btstd.pc": "d1,"}
+    t.maxlen = {"bra": 4, "bsr": 4, "bne": 4, "beq": 4, "jmp": 6, "jsr": 6, "lea": 6, "move.w": 6, "lea.pc": 4, "jmp.pc": 4, "jsr.pc": 4, "pea.pc": 4,
+                "move.pc": 4, "btsti.pc": 6, "btstd.pc": 4, "cmp.pc": 4, "movem.pc": 6}
+    t.suffix = {"lea": ",a0", "move.w": ",d0", "lea.pc": "(pc),a0", "jmp.pc": "(pc)", "jsr.pc": "(pc)", "pea.pc": "(pc)", "move.pc": "(pc),d0",
+                "btsti.pc": "(pc)", "btstd.pc": "(pc)", "cmp.pc": "(pc),d0", "movem.pc": "(pc),d0/d1"}
     return t
 
 
@@ -170,13 +186,13 @@ def gen_layout(rng, tname=None):
     out = []
     for i, it in enumerate(items):
         if it[0] == "ref" and (it[1] in t.short or (t.name == "68000" and it[1] in ("bra", "bsr", "bne", "beq"))
-                               or (t.name == "8086" and it[1] in ("jmp", "call")) or it[1] in ("lbra", "lbsr")):
+                               or (t.name == "8086" and it[1] in ("jmp", "call")) or it[1] in getattr(t, "near16", ())):
             lim = 100 if it[1] in t.short else 30000
             cands = [l for l, p in labpos.items() if abs(p - pos[i]) <= lim]
             if not cands:
                 # no encodable target: use an absolute form instead
                 alt = [m for m in sorted(t.forms) if m not in t.short and not (t.name in ("68000", "8086") and m in ("bra", "bsr", "bne", "beq", "jmp", "call"))
-                       and m not in ("lbra", "lbsr")]
+                       and m not in getattr(t, "near16", ())]
                 if not alt:
                     continue
                 out.append(("ref", rng.choice(alt), it[2]))
@@ -204,7 +220,7 @@ def render(lay):
             L.append("\t%s %d" % (t.res, it[1]))
         elif k == "ref":
             sfx = getattr(t, "suffix", {}).get(it[1], "")
-            L.append("\t%s l%d%s" % (it[1], it[2], sfx))
+            L.append("\t%s %sl%d%s" % (getattr(t, "alias", {}).get(it[1], it[1]), getattr(t, "prefix", {}).get(it[1], ""), it[2], sfx))
         elif k == "dataref":
             L.append("\t%s l%d" % ("dc.l" if it[2] == 4 else t.word, it[1]))
         elif k == "selfref":
@@ -327,6 +343,11 @@ def decode(lay, img):
                         elif kind == "l32":
                             refs.append((idx, "%s abs.l" % mn, val(rd(p, 4)), it[2], a))
                             a = p + 4
+                        elif kind == "pcw":
+                            refs.append((idx, "%s d16(PC)" % mn, (p + s(val(rd(p, 2)), 16)) & 0xFFFFFFFF, it[2], a))
+                            a = p + 2
+                            if mn == "movem.pc":
+                                pass
                         elif kind == "r8":
                             refs.append((idx, "%s rel8" % mn, (p + 1 + s(rd(p, 1)[0], 8)) & 0xFFFF, it[2], a))
                             a = p + 1
@@ -621,8 +642,8 @@ def _strip_ifdef(text):
         if skip and w and w[0].lower() == "endif":
             skip -= 1
             continue
-        if not skip:
-            out.append(ln)
+        if not skip and "nextenum" not in ln and not ln.endswith(" n1") and "lo(" not in ln:
+            out.append(ln)  # (the probes' deliberately failing statements are of no use here either)
     return "\n".join(out)
 
 
